@@ -131,7 +131,7 @@ def check_case(case):
             dis.append({"clause": "Raises", "detail": "parse of %r raised %s: %s" % (doc, type(ex_).__name__, str(ex_)[:60])})
         # 4. root svg (x/y of the outermost svg have no effect): size supplied in different ways
         if ex == 0 and ey == 0:
-            route = k % 5
+            route = k % 9
             kw = {"ppi": 96.0}
             if route == 0:
                 attrs = 'width="%s" height="%s"' % (unit_len(ew, k), unit_len(eh, k + 3))
@@ -144,6 +144,18 @@ def check_case(case):
             elif route == 3:      # caller size given as lengths
                 attrs = ""
                 kw.update(width=unit_len(ew, k), height=unit_len(eh, k + 1))
+            elif route == 5:      # one dimension from the caller, the other from an attribute
+                attrs = 'height="%s"' % unit_len(eh, k)
+                kw.update(width=float(ew))
+            elif route == 6:
+                attrs = 'width="%s"' % unit_len(ew, k)
+                kw.update(height=unit_len(eh, k + 1))
+            elif route == 7 and eh == vbh:      # only the width is supplied (by the caller): the height defaults to the viewBox's
+                attrs = ""
+                kw.update(width=float(ew))
+            elif route == 8 and ew == vbw:
+                attrs = ""
+                kw.update(height=float(eh))
             else:                 # omitted everywhere: defaults to the viewBox size
                 attrs = None
             if attrs is not None or (ew == vbw and eh == vbh):
